@@ -2,7 +2,7 @@
 From Coq Require Import List Arith Bool Lia Ring Field.
 From VBase Require Import FieldOps.
 From VModel Require Import Polynom.
-From VProofs Require Import PolyBase PolyArith PolyUtils PolyDiv PolyRoots.
+From VProofs Require Import PolyBase PolyArith PolyCoeff PolyUtils PolyDiv PolyRoots.
 Import ListNotations.
 
 Section Interp.
@@ -16,6 +16,7 @@ Local Notation peval := (peval O).
 Local Notation fpow := (fpow O).
 Local Notation pprod := (pprod O).
 Local Notation roots_poly := (roots_poly O).
+Local Notation gsum := (gsum O).
 
 Add Ring Fring : (FLaws_ring_theory O L).
 Add Field Ffield : (FLaws_field_theory O L).
@@ -47,19 +48,6 @@ Lemma split_nth (xs : list F) k : k < length xs -> xs = firstn k xs ++ nth k xs 
 Proof. intros H. rewrite <- (skipn_cons_nth xs k zero H). symmetry. apply firstn_skipn. Qed.
 
 Definition removek (k : nat) (xs : list F) : list F := firstn k xs ++ skipn (S k) xs.
-
-Fixpoint gsum (T : nat -> F) (k : nat) : F := match k with 0 => zero | S k' => gsum T k' +f T k' end.
-
-Lemma gsum_single T m : forall k, (forall i, i < k -> i <> m -> T i = zero) ->
-  gsum T k = if m <? k then T m else zero.
-Proof.
-  induction k as [|k IH]; intros H. reflexivity.
-  cbn [gsum]. rewrite IH by (intros; apply H; lia).
-  destruct (Nat.ltb_spec m k), (Nat.ltb_spec m (S k)); try lia.
-  - rewrite (H k) by lia. ring.
-  - assert (m = k) by lia. subst. ring.
-  - rewrite (H k) by lia. ring.
-Qed.
 
 Lemma zip_acc_peval c x : forall (a b : list F), length a <= length b ->
   peval (zip_with (fun r m => r +f m *f c) a b) x = peval a x +f c *f peval (firstn (length a) b) x.
@@ -170,7 +158,7 @@ Proof.
     + rewrite zip_acc_length; auto. rewrite Ng_length; lia.
     + split.
       * rewrite zip_acc_peval by (rewrite Ng_length; lia). rewrite Hl. unfold n. rewrite (Ng_firstn xs k x) by (unfold n in *; lia).
-        rewrite Hp. cbn [gsum]. unfold term. ring.
+        rewrite Hp. cbn [PolyCoeff.gsum]. unfold term. ring.
       * cbn [lag_acc]. rewrite Hlag. reflexivity.
 Qed.
 End Fixed.
@@ -289,7 +277,7 @@ Lemma interpolate_spec dbg xs ys : NoDup xs -> length ys = length xs ->
 Proof.
   intros Hnd H. destruct (interpolate_ok dbg xs ys H) as (p & H1 & H2 & H3 & H4).
   exists p. repeat split; auto. intros m Hm. rewrite H4.
-  rewrite (gsum_single _ m).
+  rewrite (gsum_single O L _ m).
   - destruct (Nat.ltb_spec m (length xs)); [|lia]. unfold term.
     rewrite dens_nth by assumption. unfold inv0.
     assert (Hnz : pprod (removek m xs) (nth m xs zero) <> zero).
